@@ -77,15 +77,6 @@ theorem C11_confirmed_spend_admitted (env : Env) (cfg : Cfg) (n : Node) (tx : Tx
   refine ⟨hadm, ?_⟩
   rw [(C11_admit_effect env cfg n tx).1 hadm]
 
-/-- decidable form of the "useful outputs" hypothesis -/
-theorem C11_useful_of_dec {m : TreeMap String (List (Option Utxo))} {is : List Input}
-    (h : ∀ i ∈ is, (match lookup m i with | .ok u => slotLive (some u) | .error _ => true) = true) :
-    ∀ i ∈ is, ∀ u, lookup m i = .ok u → slotLive (some u) = true := by
-  intro i hi u hl
-  have := h i hi
-  rw [hl] at this
-  exact this
-
 /-- non-vacuity: the example node of C11 and its transaction satisfy every hypothesis (fee 7 on the confirmed
     outputs, nothing pooled, last block untouched) -/
 example : Node.admitCheck C11ex.env C11ex.cfg C11ex.node C11ex.tx = .ok () ∧
@@ -105,6 +96,73 @@ example : Node.admitCheck C11ex.env C11ex.cfg C11ex.node C11ex.tx = .ok () ∧
     have h0 : C11ex.node.led.utxos.byId[C11ex.tx.id]? = none := by decide
     exact agree_applyTxs_byId_none (update_ok_iff.mp hc1).1 h0 (by decide)
   exact C11_confirmed_spend_admitted C11ex.env C11ex.cfg C11ex.node C11ex.tx c1 c1 fee (by decide) (by decide) (by decide)
-    (by decide) (by decide) hc1 hc2 hfee (C11_useful_of_dec (by decide)) (by decide) hfresh (by decide) (by decide) (by decide)
+    (by decide) (by decide) hc1 hc2 hfee (UtxoReg.useful_of_dec (by decide)) (by decide) hfresh (by decide) (by decide) (by decide)
+
+/-! ### … and included in the next block, whatever the shuffle -/
+
+/-- **C11 / C18 (inclusion of a confirmed spend, every shuffle).**  In the order `pre ++ t :: post` in which block
+    production tries the pool — ANY order — a transaction `t` in the window, fully signed, that passes the fee rule on
+    the confirmed outputs at the block's timestamp, whose inputs are pairwise distinct useful outputs that neither
+    the last block nor any transaction tried BEFORE it consumes or re-creates, whose id is new, with at least one
+    output and no yielding output, is kept: it is in the block. -/
+theorem C11_confirmed_spend_included (env : Env) (cfg : Cfg) (confirmed c1 : UtxoReg) (lastTxs pre post : List Tx)
+    (t : Tx) (ts last next : Int) (fee : Nat)
+    (hc1 : confirmed.update lastTxs next = .ok c1)
+    (hw1 : last ≤ t.ts) (hw2 : t.ts ≤ ts) (hsig : ∀ i ∈ t.inputs, i.sigValid = true)
+    (hfee : confirmed.calculateFee env.val cfg.minFee t ts = .ok fee)
+    (huse : ∀ i ∈ t.inputs, ∀ u, lookup confirmed.byId i = .ok u → slotLive (some u) = true)
+    (hunt : ∀ i ∈ t.inputs, ∀ x ∈ lastTxs ++ pre,
+      x.id ≠ i.txId ∧ ∀ j ∈ x.inputs, (i.txId, i.index) ≠ (j.txId, j.index))
+    (hfresh : c1.byId[t.id]? = none) (hids : ∀ x ∈ pre, x.id ≠ t.id)
+    (hout : t.outputs ≠ []) (hny : ∀ o ∈ t.outputs, o.yielding = false)
+    (hp : t.inputs.Pairwise (fun a b => (a.txId, a.index) ≠ (b.txId, b.index))) :
+    t ∈ (Node.greedy env cfg confirmed ts last next (pre ++ t :: post) c1).1 := by
+  have ha1 := (update_ok_iff.mp hc1).1
+  -- what the running copy keeps true while the transactions of `pre` are tried
+  let P : UtxoReg → Prop := fun c =>
+    (∀ i ∈ t.inputs, ∀ u, lookup confirmed.byId i = .ok u → live c i.txId i.index = some u) ∧
+    c.byId[t.id]? = none ∧ incomesOk c.byAddr = true
+  have hP1 : P c1 := by
+    refine ⟨?_, hfresh, (update_ok_iff.mp hc1).2⟩
+    intro i hi u hl
+    exact applyTxs_live_fwd_useful ha1 ((lookup_iff_live confirmed i u).mp hl) (huse i hi u hl)
+      (fun x hx => (hunt i hi x (List.mem_append_left _ hx)).1)
+      (fun x hx => (hunt i hi x (List.mem_append_left _ hx)).2)
+  have hPrun : P (Node.greedy env cfg confirmed ts last next pre c1).2 := by
+    apply Node.greedy_run_induct env cfg confirmed ts last next P pre c1 _ hP1
+    intro c x c' hx ⟨hl, hf, _⟩ hu
+    obtain ⟨hax, hincx⟩ := update_ok_iff.mp hu
+    refine ⟨?_, ?_, hincx⟩
+    · intro i hi u hlk
+      apply applyTxs_live_fwd_useful hax (hl i hi u hlk) (huse i hi u hlk)
+      · intro y hy; simp only [List.mem_singleton] at hy; subst hy
+        exact (hunt i hi y (List.mem_append_right _ hx)).1
+      · intro y hy; simp only [List.mem_singleton] at hy; subst hy
+        exact (hunt i hi y (List.mem_append_right _ hx)).2
+    · apply agree_applyTxs_byId_none hax hf
+      intro y hy; simp only [List.mem_singleton] at hy; subst hy
+      exact hids y hx
+  obtain ⟨hlrun, hfrun, hincrun⟩ := hPrun
+  -- the test on the running copy passes
+  have hkeep : Node.keeps env cfg confirmed ts last next (Node.greedy env cfg confirmed ts last next pre c1).2 t = true := by
+    rw [Node.keeps_eq_true_iff]
+    refine ⟨hw1, hw2, hsig, ⟨fee, ?_⟩, ⟨fee, hfee⟩, ?_⟩
+    · rw [calculateFee_congr env.val cfg.minFee confirmed _ t ts, hfee]
+      intro i hi
+      obtain ⟨u, hl, _⟩ := calculateFee_owner hfee i hi
+      rw [hl, (lookup_iff_live _ i u).mpr (hlrun i hi u hl)]
+    · apply (fee_isOk_iff_exists _).mp
+      apply update_single_ok_of_spend hfrun hout hny _ hp hincrun
+      intro i hi
+      obtain ⟨u, hl, _⟩ := calculateFee_owner hfee i hi
+      exact ⟨u, hlrun i hi u hl, huse i hi u hl⟩
+  have hat := C11_greedy_at env cfg confirmed ts last next pre post t c1
+  simp only [hkeep, if_true] at hat
+  rw [hat]
+  exact List.mem_append_right _ List.mem_cons_self
+
+/-- non-vacuity: in the example of C11 the transaction is kept when tried first and when tried alone -/
+example : C11ex.tx ∈ (Node.greedy C11ex.env C11ex.cfg C11ex.reg 15 10 15 ([] ++ C11ex.tx :: [C11ex.tx']) C11ex.reg).1 := by
+  decide
 
 end Ru
